@@ -13,6 +13,10 @@ Expected(s) == CASE s = 1 -> "FD" [] s = 2 -> "10" [] s = 3 -> "00" [] s = 4 -> 
 NextStep(s) == IF s = 8 THEN 10 ELSE s + 1
 \* steps whose handler reads fields of the response and raises on a short one
 NeedsLong(s) == s = 10
+\* step 6 decodes four UTF-16 text fields of the response (firmware, call sign, hardware, serial number): a response whose
+\* text is not valid UTF-16 (a lone surrogate) raises there, before the step is advanced
+BadText(d) == IF "badtext" \in DOMAIN d THEN d.badtext ELSE FALSE
+TextRaises(s, d) == s = 6 /\ d.long /\ BadText(d)
 
 \* number of request datagrams the handler sends when it advances from step s
 Requests(s) == CASE s = 0 -> 1 [] s = 1 -> 1 [] s = 3 -> 1 [] s = 4 -> 2 [] s = 6 -> 2 [] s = 7 -> 1
@@ -29,7 +33,7 @@ Recv(st, ip, d) ==
   ELSE IF d.cls = "reset" /\ s = 14 THEN [st |-> Put(st, ip, 14), nsent |-> IF d.zero THEN 1 ELSE 0, done |-> 0, out |-> "ok"]
   ELSE IF s = 0 THEN [st |-> Put(st, ip, 1), nsent |-> 1, done |-> 0, out |-> "ok"]
   ELSE IF d.cls = "resp" /\ d.k = Expected(s) THEN
-         IF NeedsLong(s) /\ ~d.long THEN [st |-> Put(st, ip, s), nsent |-> 0, done |-> 0, out |-> "raise"]
+         IF (NeedsLong(s) /\ ~d.long) \/ TextRaises(s, d) THEN [st |-> Put(st, ip, s), nsent |-> 0, done |-> 0, out |-> "raise"]
          ELSE [st |-> Put(st, ip, NextStep(s)), nsent |-> Requests(s), done |-> IF s = 13 THEN 1 ELSE 0, out |-> "ok"]
   ELSE [st |-> Put(st, ip, s), nsent |-> 0, done |-> 0, out |-> "ok"]
 
